@@ -75,6 +75,21 @@ contract(
         "len(samples) - final('n') == self.min_samples)) and "
         "(implies(len(samples) - n1 >= self.min_samples, "
         "final('n') >= self.min_remove)))))",
+        # ... and with a cap that the guarded choice already respects (the
+        # cap is not binding) the same two clauses hold: the cap may only
+        # override them when the next level would not fit otherwise
+        "let(n1, max(ghost('n1'), 1), let(n2, "
+        "(max(0, len(samples) - self.min_samples) if "
+        "len(samples) - n1 < self.min_samples else "
+        "(self.min_remove if n1 < self.min_remove else n1)), "
+        "implies(self.draw_constant and self.max_samples is not None and "
+        "self.max_samples != 0 and "
+        "(len(samples) - n2) + self.nlive <= self.max_samples, "
+        "(implies(len(samples) - n1 < self.min_samples and "
+        "len(samples) >= self.min_samples, "
+        "len(samples) - final('n') == self.min_samples)) and "
+        "(implies(len(samples) - n1 >= self.min_samples, "
+        "final('n') >= self.min_remove)))))",
         # constant draws with a cap: the next level fits
         "implies(self.draw_constant and self.max_samples is not None and "
         "self.max_samples != 0, "
